@@ -107,6 +107,28 @@ def case_strategy(draw, half):
     return case
 
 
+# quirk -> key of the recorded finding it runs into.  While that finding is listed as "known" the shape is generated in
+# a minority of cases only (case["quirk"]); once it is repaired in /repo (no longer "known" in known_findings.jsonl) the
+# shape is generated freely: in a quarter of all cases, independently of the other shapes (hash of case["salt"]).
+QUIRK_KEY = {"bare_wells": "B:well.controlMode-undefined-throws", "fractional_time": "B:restart-time-of-day-dropped",
+             "drvdt": "A:save-throws-drvdt-without-drsdt", "action_reruns": "A:action-run-count",
+             "int_array": "A:int-solution-array", "zero_limit": "B:well.zero-rate-limit-dropped"}
+_QUIRK_FREE = None
+
+
+def quirk_on(case, name):
+    global _QUIRK_FREE
+    if _QUIRK_FREE is None:
+        from vlib.runner import load_known
+        known = {e["key"] for e in load_known("C05") if e.get("status") == "known"}
+        _QUIRK_FREE = {q for q, k in QUIRK_KEY.items() if k not in known}
+    if case.get("quirk") == name:
+        return True
+    if name in _QUIRK_FREE:
+        return U(case.get("salt", 0), "quirk", name) < 0.25
+    return False
+
+
 WELSEGS_REC = re.compile(r"^ (\d+) \d+ (\d+) (\d+) \S+ \S+ \S+ \S+ /$", re.M)
 
 
@@ -142,12 +164,12 @@ def block_kws(case, b):
         # GCONSALE is outside the statement's list and not stored in restart files; it turns its group into a production
         # group as a side effect, which would show up under the group attributes
         kws = [k for k in kws if not k.startswith("GCONSALE")]
-    if case.get("quirk") != "drvdt":
+    if not quirk_on(case, "drvdt"):
         kws = [k for k in kws if not k.startswith("DRVDT")]
-    if case.get("quirk") != "zero_limit":
+    if not quirk_on(case, "zero_limit"):
         # a rate limit of exactly 0 is dropped by the restart writer (known finding): use a small positive limit instead
         kws = [re.sub(r"(?<= )0(?= )", "0.5", k) if k.startswith(("WCONPROD", "WCONINJE")) else k for k in kws]
-    if case.get("quirk") == "bare_wells":
+    if quirk_on(case, "bare_wells"):
         return kws
     txt = "".join(k for k in kws if not k.startswith("ACTIONX"))       # an ACTIONX body is not executed by the deck
     for mt in WELSPECS_RE.finditer(txt):
@@ -163,7 +185,7 @@ def block_kws(case, b):
 
 def block_time(case, b):
     t = b["time"]
-    if case.get("quirk") == "fractional_time" or not t.startswith("TSTEP"):
+    if quirk_on(case, "fractional_time") or not t.startswith("TSTEP"):
         return t
     vals = [math.ceil(float(x)) for x in t.split("\n")[1].replace("/", "").split()]
     if case["unit"] == "LAB":
@@ -376,7 +398,7 @@ def mk_solution(case, nactive, salt):
                          "idata": [int(U(salt, key, i) * 2 ** 32) - 2 ** 31 for i in range(nactive)]})
         else:
             sols.append({"key": key, "measure": meas, "target": tgt, "data": [logu(salt, lo, hi, key, i) for i in range(nactive)]})
-    if case.get("quirk") == "int_array":
+    if quirk_on(case, "int_array"):
         sols.append({"key": "FIPNUMX", "measure": "identity", "target": "RESTART_SOLUTION",
                      "idata": [int(U(salt, "FIPNUMX", i) * 2 ** 32) - 2 ** 31 for i in range(nactive)]})
     extras = []
@@ -505,8 +527,9 @@ class C05(Check):
             modifies = bool(re.search(r"'[PI]\d'", later))
             labels.append("B:later-keyword-names-a-well" if modifies else "B:no-later-well-keyword")
             nontriv = nontriv and modifies
-        if case.get("quirk"):
-            labels.append(case["half"] + ":quirk:" + case["quirk"])
+        for qn in sorted(QUIRK_KEY):
+            if quirk_on(case, qn):
+                labels.append(case["half"] + ":quirk:" + qn)
         return nontriv, sha([case["half"], case["unit"], case["fmt"], case["unif"], case["double"], txt, case["n"], case["salt"]], 16), labels
 
     def floors(self, tier):
@@ -555,7 +578,7 @@ class C05(Check):
         runs = []
         for j in range(min(case["nruns"], 3) if S["actions"] else 0):
             a = S["actions"][int(U(salt, "act", j) * len(S["actions"]))]
-            if case.get("quirk") != "action_reruns" and any(r0["name"] == a for r0 in runs):
+            if not quirk_on(case, "action_reruns") and any(r0["name"] == a for r0 in runs):
                 continue        # an action that ran twice comes back with run count 1 (known finding)
             names = [W["name"] for W in S["wells"] if U(salt, "actw", j, W["name"]) < 0.5]
             runs.append({"name": a, "time": S["start"] + int(secs[n - 1]) + 3600 * (j + 1), "wells": names})
